@@ -291,6 +291,9 @@ func (c10) Exec(t *testing.T, c *Case, replay []int) *Outcome {
 			})
 		}
 		blocked := s.Run(nil)
+		if s.Panic != "" {
+			fail("panic", s.Panic)
+		}
 		if s.Stuck {
 			fail("stuck", fmt.Sprintf("step budget %d exhausted with runnable tasks left (a lock is never released)", s.MaxSteps))
 		}
